@@ -258,7 +258,8 @@ class Gen:
         if len(self.cur) > self.max_depth:
             return None
         self.nfn += 1
-        name = f"fn{self.nfn}"
+        # function names are not unique in general (lambdas, same-named helpers in different scopes)
+        name = f"fn{self.nfn}" if rng.random() > 0.12 else rng.choice(["helper", "_lambda_"])
         if anns is None:
             anns = []
             for _ in range(rng.choice([1, 1, 2, 2, 3])):
